@@ -225,7 +225,11 @@ class StreamReaderBufferedProtocol(asyncio.BufferedProtocol):
 
     def get_buffer(self, sizehint: int) -> WriteableBuffer:
         if (external_buffer_view := self.__external_buffer_view) is not None:
-            return external_buffer_view
+            if (waiter := self.__read_waiter) is not None and not waiter.done():
+                return external_buffer_view
+            # The reader has been cancelled but did not wake up yet: nobody would be notified
+            # of the data written in its buffer. Use the internal buffer instead.
+            self.__external_buffer_view = None
         # Ignore sizehint, the buffer is already at its maximum size.
         # Returns unused buffer part
         if self.__buffer is None:
@@ -339,6 +343,10 @@ class StreamReaderBufferedProtocol(asyncio.BufferedProtocol):
                 self.__external_buffer_view = external_buffer
                 try:
                     nbytes_written_in_external_buffer = await self.__read_waiter
+                except asyncio.CancelledError:
+                    if external_buffer is not None:
+                        self.__restore_data_from_external_buffer(self.__read_waiter, external_buffer)
+                    raise
                 finally:
                     self.__external_buffer_view = None
         finally:
@@ -347,6 +355,34 @@ class StreamReaderBufferedProtocol(asyncio.BufferedProtocol):
         if nbytes_written_in_external_buffer is None:
             self._check_for_connection_lost()
         return nbytes_written_in_external_buffer
+
+    def __restore_data_from_external_buffer(self, waiter: asyncio.Future[int | None], external_buffer: WriteableBuffer) -> None:
+        # The task has been cancelled after buffer_updated() filled its buffer but before it could wake up.
+        # The caller will never know how many bytes have been written: move them to the internal buffer,
+        # *before* anything received since, so the next reader gets them.
+        if not waiter.done() or waiter.cancelled() or waiter.exception() is not None:
+            return
+        if not (nbytes := waiter.result()):
+            return
+        if self.__buffer is None:
+            # connection_lost() has been called meanwhile and pending data is discarded: do not report a clean EOF.
+            if self.__connection_lost_exception is None:
+                self.__connection_lost_exception = _utils.error_from_errno(_errno.ECONNRESET)
+                self.__eof_reached = False
+            return
+        nbytes_written = self.__buffer_nbytes_written
+        if nbytes + nbytes_written > self.__buffer_view.nbytes:
+            # Should not happen with regular buffer sizes.
+            new_buffer = bytearray(nbytes + nbytes_written)
+            new_buffer[:nbytes_written] = self.__buffer_view[:nbytes_written]
+            self.__buffer_view.release()
+            self.__buffer = new_buffer
+            self.__buffer_view = memoryview(new_buffer)
+        with memoryview(external_buffer) as external_buffer_view:
+            self.__buffer_view[nbytes : nbytes + nbytes_written] = self.__buffer_view[:nbytes_written]
+            self.__buffer_view[:nbytes] = external_buffer_view[:nbytes]
+        self.__buffer_nbytes_written = nbytes + nbytes_written
+        self._maybe_pause_transport()
 
     def _read_waiter_fut(self, set_result_cb: Callable[[asyncio.Future[int | None]], None]) -> None:
         if (waiter := self.__read_waiter) is not None:
